@@ -341,6 +341,8 @@ def run(ck):
     ck.run_rule("C06.R4", ".blkb/.blkw/.even/.odd/.align fill", 7, rule_R4)
     ck.run_rule("C06.R6", ".ascii/.asciz: charset, <n> bytes, chunk order", 6, rule_R6)
     ck.run_rule("C06.R6e", "string escapes: complete valuation over the ASCII escape letters", 129, rule_escapes)
+    from ..rules import route
+    ck.run_rule("DIR.route", "data and string directives as statements: operands cooked by annotation, real string pieces ('<n>' characters)", 7, route.rule_route, ("strings", "data"))
     from ..rules import partial
     ck.run_rule("P1", "'.align 0' and other divisions by program values are guarded", 3, partial.rule_P1)
     from . import c02
